@@ -87,6 +87,10 @@ func GetProfile(name string) *Profile {
 		return &Profile{Name: name, Conf: "limits", Reloads: []string{"limits", "limits2"}, Queues: []string{"root.a", "root.p.x", "root.p.y"}, Apps: 5, Nodes: 3, Users: u2, Groups: g,
 			W:       withW(map[string]int{"reload": 3, "addApp": 9, "removeApp": 3}),
 			GangPct: 15, ReqNode: 0, MaxPrio: 2, NodeMem: [2]int{4, 8}, AskMem: 3}
+	case "restart":
+		return &Profile{Name: name, Conf: "C", Queues: []string{"root.a", "root.p.x", "root.p.y", "root.q"}, Apps: 4, Nodes: 3, Users: u2, Groups: g,
+			W:       withW(map[string]int{"restart": 4, "foreign": 4, "foreignRemove": 1, "reportBound": 1, "updateAsk": 0, "removeNode": 2, "confirm": 14}),
+			GangPct: 25, ReqNode: 12, MaxPrio: 3, NodeMem: [2]int{3, 6}, AskMem: 3}
 	case "bad":
 		return &Profile{Name: name, Conf: "base", Queues: []string{"root.a", "root.p.x", "root.p.y"}, Apps: 4, Nodes: 3, Users: u2, Groups: g,
 			W:       withW(map[string]int{"bad": 30, "foreign": 4, "foreignRemove": 1, "reportBound": 2, "removeNode": 4}),
@@ -259,6 +263,8 @@ func (g *Gen) Next() M {
 		return M{"op": "reload", "conf": g.P.Reloads[rng.Intn(len(g.P.Reloads))]}
 	case "bad":
 		return randBad(rng)
+	case "restart":
+		return M{"op": "restart", "order": rng.Intn(1 << 30)}
 	case "cleanQueues", "quotaTick":
 		return M{"op": name}
 	}
